@@ -224,6 +224,24 @@ CHECKS['C09'] = dict(
          'TLS, the lxml parser, OS sockets and DNS, MLSD, coprocessors and plugins.',
     design_ref='DESIGN.md 5 (C09), 8')
 
+CHECKS['C12'] = dict(
+    technique='TLA+ model (ConnPool.tla) checked by TLC; real ConnectionPool/HostPool and HTTP Session executions '
+              '(stateless schedule exploration, per-iteration cancellation injection, TLC-generated environment scripts, '
+              'seeded random schedules) validated by TLC monitor and strict trace specs',
+    text='ConnPool.tla models ConnectionPool.acquire/release/no_wait_release/_process_no_wait_releases/clean and '
+         'HostPool.acquire/release/clean on asyncio 3.12 (FIFO-fair locks with the fast path only when no live waiter, '
+         'Condition.wait re-acquiring on cancellation, notify(1), task-to-task cancellation propagation), one action per '
+         'await-free block.  TLC checks Mutex, HeldBusy, Disjoint, Bound, WaitersAccounted, BusyAccounted, WaiterServed, '
+         'ReleaseCompletes, NoLeak exhaustively for N<=3 clients, H<=2 keys, M<=2, <=2 rounds, 1-2 cancellations at every '
+         'suspension point, 1 remote close, forced clean, and liveness (Served, Drains) under weak fairness on smaller '
+         'instances; the unrepaired variant is shown to violate the clauses.  The real pool runs under a deterministic '
+         'virtual-time loop: every environment choice at every quiescent point of small instances, a cancellation of each '
+         'client before every loop iteration of base schedules, TLC-generated scripts, seeded random schedules up to N=5, '
+         'H=3, M=3, and through the real HTTP Client/Session (start/download/recycle/abort) with connect refusals, mid-body '
+         'closes and early exits; every recorded trace (with a projection of pools, idle/checked-out connection ids, waiter '
+         'counters, lock flags after each event) is checked by ConnPoolMon (VIOLATION) and ConnPoolTrace (DRIFT).',
+    design_ref='DESIGN.md 5 (C12)')
+
 NOT_YET = {}
 
 
